@@ -29,6 +29,7 @@ def run(rep, tier):
     intersection_rule(rep, F)
     best_of_two(rep, F)
     interior_point(rep, F)
+    closest_tables(rep, F, tier)
     # "Intersection(p) exactly when p intersects g": the point-in-geometry kernels that closest_point's guard resolves to (tables shared with C02)
     from . import c02_kernels, c02_linear
     c02_kernels.run(rep, F, tier, only={"Triangle∩Coord", "Line∩Coord", "Rect∩Coord", "ring-step", "polygon-composition"}, rule="R12.4")
@@ -217,3 +218,220 @@ def interior_point(rep, F):
         rep.ok("R12.3", "candidate-confirmed")
     else:
         rep.bad("R12.3", "candidate-unchecked", "the scan-line candidate is returned without an intersects/relate confirmation", where=fn.loc())
+
+
+def closest_tables(rep, F, tier="quick"):
+    """R12.5: ClosestPoint::closest_point of the basic types on witnesses, through the extracted path tables (exact unrolling; nested
+    closest_point calls of members are answered by the member type's own table, intersects() by exact reference geometry):
+      Intersection(p) exactly when p lies on the geometry (payload p); otherwise SinglePoint(c) with c on the geometry and |c - p| equal to
+      the minimum distance; Indeterminate only for empty or zero-length input."""
+    import itertools
+    import math
+    from ..numeval import NumEval, seg_dist, on_seg, orient
+    from ..evalterm import NoModel, Enum
+    rep.rule("R12.5", "closest_point of Point, Line, LineString (0..3 coordinates), Triangle, Rect, Polygon (one triangular ring), MultiPoint (0..2) on grid witnesses: Intersection(p) exactly when p is on the geometry, otherwise SinglePoint(c) with c on the geometry at the minimum distance from p; Indeterminate only for empty or zero-length input")
+    GT = "geo_types::geometry::"
+    LS = GT + "line_string::LineString"
+    grid = [(float(x), float(y)) for x in (0, 1, 3) for y in (0, 2, 3)]
+    queries = [(float(x), float(y)) for x in (-1, 0, 2, 4) for y in (-1, 0, 2.5)] + [(1.0, 2.0), (0.5, 1.0)]
+    if tier == "quick":
+        queries = [(-1.0, -1.0), (0.0, 0.0), (2.0, 2.5), (4.0, 0.0), (1.0, 2.0), (0.5, 1.0), (0.0, 2.5), (2.0, -1.0)]
+
+    def vec(items):
+        return ("call", "vec!", (("array", tuple(items)),))
+
+    def C(i):
+        return ("opaque", "c%d" % i)
+    Q = ("&", ("adt", GT + "point::Point", "Point", (("opaque", "q"),)))
+    tables = {}
+
+    def table(kind, n=None):
+        key = (kind, n)
+        if key in tables:
+            return tables[key]
+        if kind == "Point":
+            ty, arg = "point::Point", ("adt", GT + "point::Point", "Point", (C(0),))
+        elif kind == "Line":
+            ty, arg = "line::Line", ("adt", GT + "line::Line", "Line", (C(0), C(1)))
+        elif kind == "LineString":
+            ty, arg = "line_string::LineString", ("adt", LS, "LineString", (vec([C(i) for i in range(n)]),))
+        elif kind == "Triangle":
+            ty, arg = "triangle::Triangle", ("adt", GT + "triangle::Triangle", "Triangle", (C(0), C(1), C(2)))
+        elif kind == "Rect":
+            ty, arg = "rect::Rect", ("adt", GT + "rect::Rect", "Rect", (C(0), C(1)))
+        elif kind == "Polygon":
+            ty, arg = "polygon::Polygon", ("adt", GT + "polygon::Polygon", "Polygon", (("adt", LS, "LineString", (vec([C(i) for i in range(n)]),)), vec([])))
+        elif kind == "MultiPoint":
+            ty, arg = "multi_point::MultiPoint", ("adt", GT + "multi_point::MultiPoint", "MultiPoint", (vec([("adt", GT + "point::Point", "Point", (C(i),)) for i in range(n)]),))
+        fn = F.impl_method(CP, r"^%s%s<F>$" % (GT, ty), None, "closest_point", crates=("geo",))
+        ex = Symex(F, concrete_iters=True, loop_bound=10, inline_crates=("geo", "geo_types"), max_depth=16, max_paths=20000, budget_s=60, no_inline=[r"Intersects<.*>>::intersects$", r"::intersects$"])
+        tables[key] = (fn, [p for p in ex.run(fn, args=[("&", arg), Q]) if p.kind != "cut"])
+        return tables[key]
+
+    def coords_of(v):
+        """witness value -> (kind, n, list of coordinate dicts)"""
+        if isinstance(v, dict) and "start" in v:
+            return "Line", None, [v["start"], v["end"]]
+        if isinstance(v, dict) and "exterior" in v:
+            cs = v["exterior"]["0"]
+            return "Polygon", len(cs), cs
+        if isinstance(v, dict) and "min" in v:
+            return "Rect", None, [v["min"], v["max"]]
+        if isinstance(v, dict) and "0" in v and isinstance(v["0"], dict) and "x" in v["0"]:
+            return "Point", None, [v["0"]]
+        if isinstance(v, dict) and "0" in v and isinstance(v["0"], list):
+            items = v["0"]
+            if items and isinstance(items[0], dict) and "0" in items[0] and "x" not in items[0]:
+                return "MultiPoint", len(items), [i["0"] for i in items]
+            return "LineString", len(items), items
+        if isinstance(v, dict) and "1" in v and "2" in v:
+            return "Triangle", None, [v["0"], v["1"], v["2"]]
+        raise NoModel("shape of %r" % (v,))
+
+    def segs_of(kind, cs):
+        P = [(c["x"], c["y"]) for c in cs]
+        if kind in ("Point", "MultiPoint"):
+            return [(p, p) for p in P], False
+        if kind == "Line":
+            return [(P[0], P[1])], False
+        if kind == "LineString":
+            return ([(P[i], P[i + 1]) for i in range(len(P) - 1)] or [(p, p) for p in P[:1]]), False
+        if kind == "Triangle":
+            return [(P[0], P[1]), (P[1], P[2]), (P[2], P[0])], True
+        if kind == "Rect":
+            a, b = P
+            c = [(a[0], a[1]), (b[0], a[1]), (b[0], b[1]), (a[0], b[1])]
+            return [(c[i], c[(i + 1) % 4]) for i in range(4)], True
+        if kind == "Polygon":
+            return [(P[i], P[i + 1]) for i in range(len(P) - 1)], True
+        raise NoModel(kind)
+
+    def D(p):
+        return {"x": p[0], "y": p[1]}
+
+    def ptxy(v):
+        while isinstance(v, dict) and "0" in v and "x" not in v:
+            v = v["0"]
+        return v
+
+    def inside_area(kind, cs, q):
+        """q strictly inside the areal shape (convex witnesses: triangle / rect)"""
+        segs, areal = segs_of(kind, cs)
+        if not areal:
+            return False
+        if kind == "Rect":
+            (ax, ay), (bx, by) = (cs[0]["x"], cs[0]["y"]), (cs[1]["x"], cs[1]["y"])
+            return ax < q[0] < bx and ay < q[1] < by
+        P = [(c["x"], c["y"]) for c in cs][:3]
+        o = [orient(D(P[i]), D(P[(i + 1) % 3]), D(q)) for i in range(3)]
+        return (all(x > 0 for x in o) or all(x < 0 for x in o))
+
+    def ref(kind, cs, q):
+        segs, areal = segs_of(kind, cs)
+        if not segs:
+            return "Indeterminate", None
+        on = any(on_seg(D(q), D(a), D(b)) for a, b in segs) or inside_area(kind, cs, q)
+        if on:
+            return "Intersection", 0.0
+        return "SinglePoint", min(seg_dist(D(q), D(a), D(b)) for a, b in segs)
+
+    class Ev(NumEval):
+        def call(self, t):
+            m = t[1].rsplit("::", 1)[-1]
+            a = t[2]
+            if m == "closest_point" and len(a) == 2:
+                g = self.ev(a[0])
+                q = self.ev(a[1])
+                return closest(g, q)
+            if m == "intersects" and len(a) == 2:
+                g = self.ev(a[0])
+                q = self.ev(a[1])
+                qc = ptxy(q)
+                kind, n, cs = coords_of(g)
+                return ref(kind, cs, (qc["x"], qc["y"]))[0] == "Intersection"
+            return NumEval.call(self, t)
+
+    def closest(g, q):
+        kind, n, cs = coords_of(g)
+        fn, paths = table(kind, n)
+        env = {C(i): c for i, c in enumerate(cs)}
+        qc = ptxy(q)
+        env[("opaque", "q")] = qc
+        ev = Ev(F, env)
+        hit = ev.select_path(paths)
+        if len(hit) != 1 or hit[0].kind != "ret":
+            raise NoModel("closest_point(%s) selects %s" % (kind, [h.kind for h in hit]))
+        return ev.ev(hit[0].ret)
+
+    def mk(kind, cs):
+        cd = [D(c) for c in cs]
+        if kind == "Point":
+            return {"0": cd[0]}
+        if kind == "Line":
+            return {"start": cd[0], "end": cd[1]}
+        if kind == "LineString":
+            return {"0": cd}
+        if kind == "Triangle":
+            return {"0": cd[0], "1": cd[1], "2": cd[2]}
+        if kind == "Rect":
+            return {"min": cd[0], "max": cd[1]}
+        if kind == "Polygon":
+            return {"exterior": {"0": cd + [cd[0]]}, "interiors": []}
+        if kind == "MultiPoint":
+            return {"0": [{"0": c} for c in cd]}
+    sub = grid[::2] + [grid[1]]
+    sub2 = sub + [(3.0, 3.0), (0.0, 2.0)]
+    tri = sub if tier == "thorough" else sub[:3] + [(3.0, 3.0)]
+    plan = [("Point", 1, grid), ("Line", 2, sub2), ("LineString", 0, grid), ("LineString", 1, grid), ("LineString", 2, sub), ("LineString", 3, sub),
+            ("Triangle", 3, tri), ("Polygon", 3, tri), ("MultiPoint", 0, grid), ("MultiPoint", 1, grid), ("MultiPoint", 2, sub)]
+    n_ok = 0
+    for kind, n, dom in plan + [("Rect", 2, None)]:
+        key = "%s/%d" % (kind, n)
+        cases = [c for c in itertools.product(grid, repeat=2) if c[0][0] <= c[1][0] and c[0][1] <= c[1][1]] if kind == "Rect" else itertools.product(dom, repeat=n)
+        bad = None
+        k = 0
+        try:
+            if kind == "Line":
+                # a point that is exactly on the segment in floating point while its computed projection is not bit-identical to it
+                cases = list(cases) + [((0.0, 0.0), (10.0, 10.0))]
+            for cs in cases:
+                if kind in ("Triangle", "Polygon") and orient(D(cs[0]), D(cs[1]), D(cs[2])) == 0:
+                    continue       # degenerate areal shapes: the reference for "inside" is ambiguous; the linear types cover the segment logic
+                g = mk(kind, cs)
+                for q in (queries if cs != ((0.0, 0.0), (10.0, 10.0)) else [(0.007, 0.007), (3.3, 3.3), (0.007, 0.0071)]):
+                    r = closest(g, {"0": D(q)})
+                    if not isinstance(r, Enum):
+                        raise NoModel("result %r" % (r,))
+                    kind_r, n_r, cs_r = coords_of(g)
+                    want, dmin = ref(kind_r, cs_r, q)
+                    k += 1
+                    zero_length = kind in ("Line", "LineString", "Rect") and len(set(cs)) <= 1
+                    if want == "Indeterminate":
+                        ok = r.variant == "Indeterminate"
+                    elif zero_length and r.variant == "Indeterminate":
+                        ok = True          # "Indeterminate only for empty or zero-length input": allowed here
+                    elif want == "Intersection":
+                        pay = ptxy(r.payload[0]) if r.payload else None
+                        ok = r.variant == "Intersection" and pay is not None and (pay["x"], pay["y"]) == q
+                    else:
+                        if r.variant == "Indeterminate":
+                            ok = False
+                        else:
+                            pay = ptxy(r.payload[0]) if r.payload else None
+                            segs, _ = segs_of(kind_r, cs_r)
+                            ok = (r.variant == "SinglePoint" and pay is not None and abs(math.hypot(pay["x"] - q[0], pay["y"] - q[1]) - dmin) <= 1e-9
+                                  and min(seg_dist(pay, D(a), D(b)) for a, b in segs) <= 1e-9)
+                    if not ok:
+                        bad = "closest_point(%s %s, %s) = %s; %s" % (kind, list(cs), q, r, "the point is on the geometry" if want == "Intersection" else "expected %s%s" % (want, "" if dmin is None else " at distance %.6g" % dmin))
+                        break
+                if bad:
+                    break
+        except (NoModel, TypeError, KeyError, ValueError, IndexError, Unanalysable) as e:
+            import traceback
+            bad = "cannot be evaluated: %s %s" % (e, traceback.format_exc()[-400:].replace("\n", " | "))
+        if bad:
+            rep.bad("R12.5", "closest:%s" % key, bad, where=table(kind, n + 1 if kind == "Polygon" else (n if kind in ("LineString", "MultiPoint") else None))[0].loc() if (kind, n) in tables or True else None)
+        else:
+            n_ok += 1
+            rep.ok("R12.5", "closest:%s[%d witnesses]" % (key, k))
+    rep.floor("R12.5", "closest_point tables", n_ok, 12)
